@@ -160,12 +160,21 @@ def run_case(case):
         n = nc * nm
         pat = case['pattern']
         rates = [[1e-3 * (1 + (i * 7) % 13), 10.0 ** (-12 + (i % 16)), 0.5 + (i % 5), (0.0 if i % 11 == 3 else 2.0 + i)][pat] for i in range(n)]
-        counts = [[(i % 3), (7 if i % 10 == 0 else 0), (i % 7) + (100 if i == n // 2 else 0), (0 if rates[i] == 0 else (i % 2) * 6)][pat] for i in range(n)]
+        counts = [[(i % 3) + (200 if i == 1 else 0), (7 if i % 10 == 0 else 0) + (500 if i == n - 1 else 0), (i % 7) + (100 if i == n // 2 else 0), (0 if rates[i] == 0 else (i % 2) * 6)][pat] for i in range(n)]
         if pat == 3:
             counts[3 if n > 3 else 0] = 0
         fc = fixtures.gridded_forecast(numpy.array(rates, dtype=float).reshape(nc, nm), reg, mags)
         cat = fixtures.catalog(fixtures.events_from_counts(numpy.array(counts).reshape(nc, nm), origins, mags), region=reg)
         evals += judge_pair(shape, rates, counts, cat, fc, None, failures, hsh)
+        if nc > 1 and nm > 1:
+            # the same rates held in column-major memory and as a transposed view
+            for lay in ('F', 'T'):
+                d = numpy.array(rates, dtype=float).reshape(nc, nm)
+                d = numpy.asfortranarray(d) if lay == 'F' else numpy.ascontiguousarray(d.T).T
+                before = len(failures)
+                evals += judge_pair(shape, rates, counts, cat, fixtures.gridded_forecast(d, reg, mags), None, failures, hsh)
+                for f in failures[before:]:
+                    f['signature'] += f',layout={lay}'
         # one catalog with an event in a zero-rate bin (pattern 3 has zero-rate bins)
         if pat == 3:
             zc = list(counts)
